@@ -249,6 +249,7 @@ structure BInv (c : Ctx) (fm : List FirstSet) (E : Nat → Sym Nat Nat → Prop)
   func : ∀ t1 ∈ b.transitions, ∀ t2 ∈ b.transitions, t1.frm = t2.frm → t1.sym = t2.sym → t1.to = t2.to
   /-- the augmented initial item lives in state 0 only -/
   aug : ∀ i, i < b.states.length → i ≠ 0 → ∀ y ∈ b.states.getD i [], y.dot = 0 → y.rule < c.numRules
+  hasStart : startItem c ∈ b.states.getD 0 []
 
 /-! ### `enqueue_state_if_needed` -/
 
@@ -606,7 +607,8 @@ theorem enqueueTarget_spec {c : Ctx} {fm : List FirstSet} (hwf : CtxWF c) (hfb :
         distinct := sp.distinct
         tcore := ?_
         func := ?_
-        aug := ?_ }
+        aug := ?_
+        hasStart := sp.mono 0 inv.nonempty _ inv.hasStart }
     · intro t ht
       rcases insertTransition_mem.mp ht with ht | rfl
       · rw [sp.transEq] at ht
@@ -708,7 +710,7 @@ theorem enqueueTargets_spec {c : Ctx} {fm : List FirstSet} (hwf : CtxWF c) (hfb 
     intro b b' inv hi _ h
     simp only [enqueueTargets] at h
     cases h
-    refine ⟨inv.nonempty, inv.good, inv.queue, inv.trans, inv.zero, ?_, inv.distinct, inv.tcore, inv.func, inv.aug⟩
+    refine ⟨inv.nonempty, inv.good, inv.queue, inv.trans, inv.zero, ?_, inv.distinct, inv.tcore, inv.func, inv.aug, inv.hasStart⟩
     intro i' hi' hq X' hX'
     rcases inv.done i' hi' hq X' hX' with (h | ⟨_, k, hk, _⟩) | h
     · exact Or.inl h
@@ -793,6 +795,7 @@ theorem buildLoop_spec {c : Ctx} {fm : List FirstSet} (hwf : CtxWF c) (hfb : FmB
             trans := inv.trans
             zero := inv.zero
             aug := inv.aug
+            hasStart := inv.hasStart
             distinct := inv.distinct
             tcore := inv.tcore
             func := inv.func
@@ -838,7 +841,8 @@ theorem initial_inv {c : Ctx} {fm : List FirstSet} (hwf : CtxWF c) (hfb : FmBoun
       distinct := by intro i j hi hj _; simp at hi hj; omega
       tcore := by intro t ht; cases ht
       func := by intro t ht; cases ht
-      aug := by intro i hi h0; simp at hi; omega }
+      aug := by intro i hi h0; simp at hi; omega
+      hasStart := by simp only [List.getD_cons_zero]; exact h2 _ (List.mem_singleton.mpr rfl) }
   intro i hi
   simp at hi; subst hi
   simp only [List.getD_cons_zero]
